@@ -1895,12 +1895,12 @@ var brokenTags = []string{
 	"<%= for (i, v) xs { %>\nbody\n\n<% } %>",
 	"<%= if n1 { %>\nbody\n<% } %>",
 	"<%= fn(a { return a } %>\nx\n<%= 1 ^ 2 %>\n<% let = 3 %>",
-	// a for header that never closes its parenthesis: the parser looks ahead for ')' and gives up at a '{' in a
-	// later tag, or at the end of the input; the error is the header's
-	"<%= for (x in xs %>a<% } %>\nlater <%= toJSON({\"a\": 1}) %>\n",
-	"<%= for (x in xs %>a\nlater <%= toJSON({\"a\": 1}) %>\n",
-	"<%= for (x, y in xs %>a\n\n<% let h = {\"a\": 1} %>\nend",
-	"<%= for (x in xs %>a\nnothing more\n",
+	// number literals the parser cannot convert
+	"<%= 99999999999999999999 %>",
+	"<%= n1 + 18446744073709551616 %>",
+	"<%= 1" + strings.Repeat("0", 400) + ".5 %>",
+	// (for headers that never close their parenthesis are in fault.go's list of constructs that END the input: the
+	// parser looks ahead for ')' through everything that follows, so what follows decides where it gives up)
 	"<%= for x in xs { %>a<% } %>\nmore\n",
 }
 
